@@ -718,3 +718,92 @@ def reach_from(fn, start_blocks, stop=frozenset()):
         seen.add(b)
         st.extend(fn.succs(b))
     return seen
+
+
+def canon(e, depth=0):
+    """canonical compact rendering of a value expression with views/copies peeled everywhere
+    (refs, derefs, clones, to_owned, deref calls ...), for structural comparison in rules"""
+    if depth > 40:
+        return "…"
+    e = strip_transparent(e)
+    k = e.k
+    d = depth + 1
+    if k == "param":
+        return "param%d" % e.a[0]
+    if k == "const":
+        return "const(%s)" % e.a[0]
+    if k == "call":
+        return "%s(%s)" % (short_path(e.a[0]), ", ".join(canon(x, d) for x in e.a[1]))
+    if k == "agg":
+        return "%s{%s}" % (short_path(e.a[1]), ", ".join(canon(x, d) for x in e.a[2]))
+    if k == "field":
+        return "%s.%s" % (canon(e.a[0], d), e.a[1])
+    if k == "downcast":
+        return "(%s as %s)" % (canon(e.a[0], d), e.a[1])
+    if k == "index":
+        return "%s[%s]" % (canon(e.a[0], d), canon(e.a[1], d))
+    if k == "phi":
+        return "phi[%s]" % " | ".join(sorted(set(canon(x, d) for x in e.a[0])))
+    if k == "bin":
+        return "(%s %s %s)" % (canon(e.a[1], d), e.a[0], canon(e.a[2], d))
+    if k == "un":
+        return "%s(%s)" % (e.a[0], canon(e.a[1], d))
+    if k == "cast":
+        return "cast(%s)" % canon(e.a[0], d)
+    if k == "discr":
+        return "discr(%s)" % canon(e.a[0], d)
+    if k == "partial":
+        return "partial(%s)" % canon(e.a[1], d)
+    return "%s%r" % (k, e.a)
+
+
+def _strip_generics(s):
+    out = []
+    depth = 0
+    for ch in s:
+        if ch == "<":
+            depth += 1
+        elif ch == ">":
+            depth -= 1
+        elif depth == 0:
+            out.append(ch)
+    return "".join(out)
+
+
+def short_path(p):
+    """`std::collections::HashMap::<K, V, S, A>::get` -> `HashMap::get`;
+    `<data::oset::Oset<T> as std::ops::Deref>::deref` -> `Deref@Oset::deref`;
+    `core::slice::<impl [T]>::len` -> `slice::len`"""
+    if p.startswith("<"):
+        # <Self as Trait>::method
+        depth = 0
+        end = None
+        for i, ch in enumerate(p):
+            if ch == "<":
+                depth += 1
+            elif ch == ">":
+                depth -= 1
+                if depth == 0:
+                    end = i
+                    break
+        inner = p[1:end]
+        rest = p[end + 1:]
+        # split at top-level " as "
+        depth = 0
+        cut = None
+        for i in range(len(inner)):
+            if inner[i] == "<":
+                depth += 1
+            elif inner[i] == ">":
+                depth -= 1
+            elif depth == 0 and inner.startswith(" as ", i):
+                cut = i
+                break
+        if cut is not None:
+            selfty = _strip_generics(inner[:cut]).strip().lstrip("&").replace("'a ", "").replace("mut ", "").rsplit("::", 1)[-1]
+            trait = _strip_generics(inner[cut + 4:]).strip().rsplit("::", 1)[-1]
+            return "%s@%s%s" % (trait, selfty, _strip_generics(rest))
+        return _strip_generics(inner).rsplit("::", 1)[-1] + _strip_generics(rest)
+    q = _strip_generics(p).replace("::::", "::")
+    parts = [x for x in q.split("::") if x]
+    return "::".join(parts[-2:]) if len(parts) >= 2 else q
